@@ -31,6 +31,11 @@ class Spec:
         """case + implementation observation -> a chk_* line for modelrun, or None"""
         return None
 
+    def oracle_lines(self, case, impl_obs):
+        """several oracle lines for one case (all must hold); default: the single one"""
+        l = self.oracle_line(case, impl_obs)
+        return [] if l is None else [l]
+
     def oracle_verdict(self, out):
         """modelrun's answer -> True (property holds on this case) / False / None (outside quantifier)"""
         if "wf=0" in out:
@@ -106,16 +111,17 @@ def run_spec(spec, tier, seed, replay=None):
             # the property's decidable form on what the real code produced)
             olines, oidx = [], []
             for i, c in enumerate(cases):
-                ol = spec.oracle_line(c, impl[i])
-                if ol is not None:
+                for ol in spec.oracle_lines(c, impl[i]):
                     olines.append(ol); oidx.append(i)
             oouts = vlib.run_lines([vlib.MODELRUN], olines) if olines else []
             n_in_quant = 0
+            failed = set()
             for i, o in zip(oidx, oouts):
                 v = spec.oracle_verdict(o)
                 if v is not None:
                     n_in_quant += 1
-                if v is False:
+                if v is False and i not in failed:
+                    failed.add(i)
                     oracle_fail.append(i)
             stats["oracle_evaluations"] = len(olines)
             stats["oracle_inside_quantifier"] = n_in_quant
